@@ -338,6 +338,25 @@ func isUnsigned(t types.Type) bool {
 	return ok && b.Info()&types.IsUnsigned != 0
 }
 
+// sintRange: 2^(n-1) and 2^n for a signed integer type of n bits
+func sintRange(t types.Type) (string, string, bool) {
+	b, ok := t.Underlying().(*types.Basic)
+	if !ok || b.Info()&types.IsInteger == 0 || b.Info()&types.IsUnsigned != 0 {
+		return "", "", false
+	}
+	switch b.Kind() {
+	case types.Int, types.Int64:
+		return "9223372036854775808", "18446744073709551616", true
+	case types.Int32:
+		return "2147483648", "4294967296", true
+	case types.Int16:
+		return "32768", "65536", true
+	case types.Int8:
+		return "128", "256", true
+	}
+	return "", "", false
+}
+
 func isString(t types.Type) bool {
 	b, ok := t.Underlying().(*types.Basic)
 	return ok && b.Info()&types.IsString != 0
@@ -362,6 +381,12 @@ func (e *Engine) binop(st *State, instr ssa.Instruction, op token.Token, x, y Va
 	wrap := func(t string) Val {
 		if m, ok := uintMod(rt); ok {
 			return term(fmt.Sprintf("(mod %s %s)", t, m), SInt, rt)
+		}
+		// functions marked `wraparound`: signed machine arithmetic is two's-complement, not mathematical
+		if fc := st.top().fc; fc != nil && fc.Wraparound {
+			if half, full, ok := sintRange(rt); ok {
+				return term(fmt.Sprintf("(- (mod (+ %s %s) %s) %s)", t, half, full, half), SInt, rt)
+			}
 		}
 		return term(t, SInt, rt)
 	}
@@ -497,6 +522,12 @@ func (e *Engine) bitop(st *State, op token.Token, x, y Val, rt types.Type) Val {
 	wrap := func(t string) Val {
 		if m, ok := uintMod(rt); ok {
 			return term(fmt.Sprintf("(mod %s %s)", t, m), SInt, rt)
+		}
+		// functions marked `wraparound`: signed machine arithmetic is two's-complement, not mathematical
+		if fc := st.top().fc; fc != nil && fc.Wraparound {
+			if half, full, ok := sintRange(rt); ok {
+				return term(fmt.Sprintf("(- (mod (+ %s %s) %s) %s)", t, half, full, half), SInt, rt)
+			}
 		}
 		return term(t, SInt, rt)
 	}
